@@ -13,7 +13,7 @@ package deferred
 //@   ensures still_locked [C08]: held(dcw.lk) == 2
 //@   modifies fx(dcw), dcw.w, dcw.f
 //@   effects require only_first_time [C20]: old(dcw.w) == nil
-//@   call[os.OpenFile#0] assert flags [C05,C20]: arg0 == dcw.outPath && arg1 == 577 && dcw.outStream == nil
+//@   call[os.OpenFile#0] assert flags [C01,C05,C20]: arg0 == dcw.outPath && arg1 == 577 && dcw.outStream == nil
 //@   call[storage.NewWritable#0] assert same_as_direct_writer [C20]: arg1 == dcw.roots && arg2 == dcw.opts && (dcw.outStream != nil ==> ref(arg0) == ref(dcw.outStream)) && (dcw.outStream == nil ==> ref(arg0) == ref(dcw.f))
 //@   ghost after call[os.OpenFile#0]: fx(dcw) := fx(dcw) + 1
 //@   ghost after call[storage.NewWritable#0]: fx(dcw) := fx(dcw) + 1
